@@ -712,7 +712,8 @@ Definition optchain_transform (c : config) (fuel : nat) (e : node) (p : pstate)
       | _ :: _, Some nid =>
           let test := mk_bin DUMMY "==" nid (mk_null DUMMY) in
           let cond := mk_cond DUMMY test (mk_ident DUMMY "undefined") e' in
-          Some (mk_paren DUMMY (mk_seq DUMMY (oc_assigns s ++ [cond])), true, oc_p s)
+          (* the guard takes the place, and the span, of the chain *)
+          Some (mk_paren (span_of e) (mk_seq (span_of e) (oc_assigns s ++ [cond])), true, oc_p s)
       | _, _ => Some (e', false, oc_p s)
       end
   end.
